@@ -86,3 +86,12 @@ package loop
 //@   return-ensures [C12.count] isUpCounting && isInclusive ==> gen(numer, token.ADD, iface(diff, "*SCEVGenericExpr"), iv.Step)
 //@   return-ensures [C12.count] isUpCounting && !isInclusive ==> hasType(numer, "*SCEVGenericExpr") && dyn(numer, "*SCEVGenericExpr").Op == token.SUB && gen(dyn(numer, "*SCEVGenericExpr").X, token.ADD, iface(diff, "*SCEVGenericExpr"), iv.Step) && constN(dyn(numer, "*SCEVGenericExpr").Y, 1)
 // (the down-counting branch ends in the function's final join, where its locals are out of scope: not under contract)
+
+// ---- C12: the constant a loop summary is built from is the integer the Go constant denotes (sign included)
+//@ func SCEVFromConst
+//@   noframe
+//@   uses bigconst
+//@   requires c != nil
+//@   ensures [C12.const] c.Value == nil ==> constN(result, 0)
+//@   ensures [C12.const] c.Value != nil && hasType(result, "*SCEVConstant") ==> dyn(result, "*SCEVConstant").Value == purecall("math/big.NewInt", constIntOf(c.Value))
+
